@@ -40,7 +40,7 @@ def protocol_fingerprint(path):
         lines = []
         for ln in m.group(0).splitlines():
             t = ln.strip()
-            if not t or t.startswith("//") or t.startswith("log.") or t.startswith("channelLog") or "zap." in t:
+            if not t or t.startswith("//") or t.startswith("log.") or t.startswith("channelLog") or "zap." in t or t.startswith("verifGate(") or t.startswith("verifYield("):
                 continue
             t = re.sub(r"\s*//.*$", "", t)
             lines.append(re.sub(r"\s+", " ", t))
@@ -86,9 +86,11 @@ C = dict(
          "distinct design state for the deeper configurations, TLC -simulate at depth 16; a trace is non-trivial if at least one "
          "assignment was made; distinct = distinct event sequences",
     assumptions=[
-        "util.ChannelMapping is the real code; the manager's three critical sections (startReadChannel, forwardChannel, "
-        "waitChannel) are transcribed line by line into the driver (harness/drivers/chanmap/main.go cites the lines): a change "
-        "of the manager's protocol is not seen until the transcription is updated",
+        "every plan is replayed (a) on the REAL replicateChannelManager (driver chanmgr): offers are StartReadCollection calls "
+        "of one-shard collections, the forwardChannel / waitChannel goroutines are parked by the verif gates in front of their "
+        "critical sections and released by the plan; which waiter receives a forwarded channel is the Go runtime's choice and "
+        "logged; (b) through a line-by-line transcription of the three critical sections around the real util.ChannelMapping "
+        "(driver chanmap), only while the manager's protocol carries a known fingerprint",
         "key side = larger side (source side when equal); for S < T the statement's 'every source channel ... exactly one "
         "downstream channel' is read on the key side (every downstream channel in use has exactly one source), because the same "
         "sentence lets a channel of the smaller side serve ceil(larger/smaller) partners",
@@ -100,17 +102,31 @@ C = dict(
 )
 
 
+def expand(fp_known):
+    """every plan is replayed twice: through the transcription (driver chanmap, only when the manager's protocol is the
+    fingerprinted one) and on the real replicateChannelManager (driver chanmgr, verif gates H6)"""
+    def f(plans, tier):
+        out = []
+        for i, p in enumerate(plans):
+            if fp_known and (tier == "thorough" or p.get("src") == "directed" or i % 4 == 0):
+                out.append(dict(p, driver="chanmap"))
+            if tier == "thorough" or p.get("src") == "directed" or i % 2 == 1:
+                out.append(dict(p, plan="real-" + str(p["plan"]), driver="chanmgr"))
+        return out
+    return f
+
+
 def run(tier, replay=None):
     path = os.path.join(core_path(), "reader", "replicate_channel_manager.go")
     fp = protocol_fingerprint(path)
-    if fp not in PROTOCOL_VARIANTS:
-        raise vlib.Inconclusive(
-            "the channel manager's offer protocol changed (fingerprint %s of %s in %s is unknown): update the "
-            "transcription in harness/drivers/chanmap/main.go and register the fingerprint in checks/c16.py"
-            % (fp, "/".join(PROTOCOL_FUNCS), path))
-    variant = PROTOCOL_VARIANTS[fp]
-    vlib.log("[c16] manager protocol fingerprint %s -> transcription variant '%s'" % (fp, variant))
-    if not replay:
+    known = fp in PROTOCOL_VARIANTS
+    variant = PROTOCOL_VARIANTS.get(fp, "recheck,skey")
+    if known:
+        vlib.log("[c16] manager protocol fingerprint %s -> transcription variant '%s'" % (fp, variant))
+    else:
+        vlib.log("[c16] manager protocol fingerprint %s is unknown: the transcription is skipped, every plan runs on the "
+                 "real manager only" % fp)
+    if not replay and known:
         # the design with the switches of the fingerprinted code: as built it must leave the contract (TLC counterexample =
         # the directed plans d-stale-forward-* / d-sourcekey-*), fully repaired it is covered by model_checks above
         flags = set(variant.split(","))
@@ -123,5 +139,9 @@ def run(tier, replay=None):
             vlib.log("[c16] %s: design as built violates the contract, as expected (%d states)" % (cfg, r.distinct))
     c = dict(C)
     c["driver_env"] = {"VERIF_C16_VARIANT": variant}
-    c["assumptions"] = C["assumptions"] + ["manager protocol fingerprint %s, transcription variant '%s'" % (fp, variant)]
+    c["expand_plans"] = expand(known)
+    c["more_drivers"] = ["chanmgr"]
+    c["driver_parallel"] = {"chanmap": 1, "chanmgr": 12}
+    c["assumptions"] = C["assumptions"] + ["manager protocol fingerprint %s, transcription variant '%s'%s"
+                                           % (fp, variant, "" if known else " (unknown fingerprint: transcription skipped)")]
     return flow.standard_flow(c, tier, replay)
